@@ -16,7 +16,8 @@ import RuxModel.Model.Chain
                                    route.Use(u)
 
   <acts>: comma separated, `-` = none:  e<t> emit, n Next(), a Abort(), t AbortThen(), s<c> AbortWithStatus(c),
-          x<c> AbortWithStatus(c, msg), i<t> record IsAborted(), c<c> SetStatus(c), w<t> write chunk t
+          x<c> AbortWithStatus(c, msg), i<t> record IsAborted(), c<c> SetStatus(c), w<t> write chunk t,
+          b<t> marker t; the real handler additionally swaps c.Resp for a transparent buffering writer until it returns
   <trace>: comma separated: E<h> L<h> M<h>.<t> P<h>.<t>.<0|1> A<h> S<h>.<c> W<h>.<t>
 -/
 namespace Rux.Drv.ChainE
@@ -39,6 +40,7 @@ def parseAct (s : String) : Option Act :=
     | none => none
     | some k =>
       if c = 'e' then some (.emit k)
+      else if c = 'b' then some (.emit k)   -- marker; the real handler also wraps c.Resp transparently
       else if c = 's' then some (.abortWithStatus k)
       else if c = 'x' then some (.abortWithMsg k)
       else if c = 'i' then some (.isAborted k)
